@@ -19,7 +19,7 @@ var hpkeSpecs = []string{"hpke:x25519:a128", "hpke:x25519:a256", "hpke:x25519:cc
 var keySpecs = []string{"gcm:16", "gcm:32", "gcmsiv:16", "gcmsiv:32", "chacha", "xchacha", "xaes", "ctrhmac:16:32", "ctrhmac:32:32", "ctrhmac:16:16",
 	"siv:64", "hmac:16", "hmac:32", "hmac:64", "cmac:32", "hmacprf:32", "hmacprf:16", "hkdfprf:32", "cmacprf:32", "sgcm:16:16", "sgcm:32:16", "sctr:32:32",
 	"jwthmac:32", "mldsa:65", "mldsa:87", "slhdsa:64:f", "ed25519", "hpke:xwing", "hpke:mlkem768", "hpke:mlkem1024"}
-var signSpecs = []string{"mldsa:65", "mldsa:87", "rsapss:32", "rsapss:20", "slhdsa:64:f"}
+var signSpecs = []string{"mldsa:65", "mldsa:87", "mldsapre:65", "mldsapre:87", "rsapss:32", "rsapss:20", "slhdsa:64:f"}
 var looseSpecs = []string{"hpke:p256", "hpke:p384", "hpke:p521", "hpke:mlkem768", "hpke:mlkem1024", "ecdsa:p256:der", "ecdsa:p256:p1363",
 	"ecdsa:p384:der", "ecdsa:p521:p1363", "kg:ecdsa:p256", "kg:ecdsa:p384", "kg:hpke:p256", "kg:hpke:x25519", "kg:ecies:p256", "kg:hpke:p521"}
 
@@ -89,7 +89,9 @@ func pickStyle(r *hx.Rng) int {
 	}
 }
 
-func be32(b []byte) uint32 { return uint32(b[0])<<24 | uint32(b[1])<<16 | uint32(b[2])<<8 | uint32(b[3]) }
+func be32(b []byte) uint32 {
+	return uint32(b[0])<<24 | uint32(b[1])<<16 | uint32(b[2])<<8 | uint32(b[3])
+}
 
 func gen(r *hx.Rng, n int, tier string) []string {
 	if tier == "thorough" {
